@@ -92,6 +92,7 @@ func (member *StructMember) CacheIsFile(t Type) {
 		member.isComplex = true
 	}
 	member.isFile = t.IsFile()
+	member.baseIsFile = baseType(t).IsFile() == KindIsFile
 }
 
 func (member *StructMember) compile(st *StructType, global *Ast) error {
